@@ -881,6 +881,26 @@ func (c *ctx) runTruth(r *vh.RNG) {
 		}
 	}
 	c.runRanges()
+	// large posting lists: 512 documents, every atom posted on 256 of them (static leaves with hundreds of values, heavy
+	// overlap), every tree up to 4 nodes plus the NAND-producing shapes, both parsers; IndexSearch runs them in both orders
+	// and over all time windows
+	{
+		memo9 := map[int][]*T{}
+		var big []*T
+		for n := 1; n <= 4; n++ {
+			big = append(big, treesOfSize(n, 3, false, memo9)...)
+		}
+		a, b, cc := leaf(0), leaf(1), leaf(2)
+		big = append(big, bin('&', a, not(bin('|', b, cc))), bin('&', bin('|', a, cc), not(b)), not(bin('|', b, not(a))), bin('&', not(b), bin('&', a, not(cc))),
+			bin('|', bin('&', a, not(b)), bin('&', b, not(a))), bin('&', not(a), not(b)), bin('&', bin('&', a, not(b)), not(cc)))
+		for _, t := range big {
+			e := fromT(t)
+			want := t.table(9)
+			for _, which := range []string{"seqql", "legacy"} {
+				c.caseTruth(which, 9, want, e.render(style{legacy: which == "legacy"}, nil, 0), "", "large-postings")
+			}
+		}
+	}
 	// directed: `_exists_:in(V0, V1)` is the disjunction `_exists_:V0 or _exists_:V1` (names with an upper-case letter; the
 	// builtin field is case sensitive whatever the configuration), also negated and inside a conjunction
 	for _, atoms := range [][]int{{0}, {0, 1}, {2, 0, 1}} {
